@@ -6,6 +6,7 @@ check derives, per element class, the set of keys to_dict can emit from the clas
 that class consumes and where each key lands.
 """
 import ast
+import re
 
 from ..src import (walk, calls, call_name, last_attr, dotted, norm, loc, const, AnchorError, ExtractError,
                    parent, unparse, str_consts)
@@ -106,6 +107,10 @@ class ClassTable(object):
         return out
 
 
+def names_in_load(fn):
+    return sorted({n.id for n in walk(fn) if isinstance(n, ast.Name) and isinstance(n.ctx, ast.Load)})
+
+
 def only_raises(fn):
     body = [s for s in fn.body if not (isinstance(s, ast.Expr) and isinstance(s.value, ast.Constant))]
     return bool(body) and all(isinstance(s, ast.Raise) for s in body)
@@ -160,13 +165,21 @@ def find_branches(fd, listkey, typekey):
         if isinstance(n, ast.For) and isinstance(n.iter, ast.Subscript) and const(n.iter.slice) == listkey and isinstance(n.target, ast.Name):
             var = n.target.id
             out = {}
+            # the discriminator may be hoisted: ntype = X[typekey]
+            disc = {s.targets[0].id for s in n.body if isinstance(s, ast.Assign) and len(s.targets) == 1 and isinstance(s.targets[0], ast.Name)
+                    and isinstance(s.value, ast.Subscript) and const(s.value.slice) == typekey and isinstance(s.value.value, ast.Name) and s.value.value.id == var}
+
+            def is_disc(e):
+                return (isinstance(e, ast.Subscript) and const(e.slice) == typekey) or (isinstance(e, ast.Name) and e.id in disc)
             for s in n.body:
                 cur = s
                 while isinstance(cur, ast.If):
                     t = cur.test
-                    if (isinstance(t, ast.Compare) and isinstance(t.left, ast.Subscript) and const(t.left.slice) == typekey
-                            and len(t.comparators) == 1 and isinstance(const(t.comparators[0]), str)):
-                        out[const(t.comparators[0])] = cur.body
+                    if isinstance(t, ast.Compare) and len(t.comparators) == 1 and isinstance(t.ops[0], ast.Eq):
+                        if is_disc(t.left) and isinstance(const(t.comparators[0]), str):
+                            out[const(t.comparators[0])] = cur.body
+                        elif is_disc(t.comparators[0]) and isinstance(const(t.left), str):
+                            out[const(t.left)] = cur.body
                     cur = cur.orelse[0] if (len(cur.orelse) == 1 and isinstance(cur.orelse[0], ast.If)) else None
             if out:
                 return var, out, n
@@ -381,6 +394,419 @@ def explicit_dict_keys(fn):
     return out
 
 
+# --------------------------------------------------------------------------- string templates (what text does a __str__ produce?)
+class Hole(object):
+    """a varying piece of a produced string; `text` is the source expression with every local resolved through its definition."""
+
+    def __init__(self, text, spec=""):
+        self.text = text
+        self.spec = spec
+
+    def __repr__(self):
+        return "{%s}" % self.text
+
+
+class Sym(object):
+    """a non-string value known only as an expression over self / parameters (locals already substituted)."""
+
+    def __init__(self, text):
+        self.text = text
+
+    def __repr__(self):
+        return "Sym(%s)" % self.text
+
+
+class Tmpl(object):
+    """a produced string: literal pieces (str) and Holes."""
+
+    def __init__(self, segs=()):
+        self.segs = []
+        for x in segs:
+            self.add(x)
+
+    def add(self, x):
+        if isinstance(x, Tmpl):
+            for y in x.segs:
+                self.add(y)
+        elif isinstance(x, str):
+            if x:
+                if self.segs and isinstance(self.segs[-1], str):
+                    self.segs[-1] += x
+                else:
+                    self.segs.append(x)
+        else:
+            self.segs.append(x)
+
+    def tokens(self):
+        """whitespace separated tokens; each token is a list of pieces (str / Hole)."""
+        out, cur = [], []
+        for sg in self.segs:
+            if isinstance(sg, Hole):
+                cur.append(sg)
+                continue
+            for part in re.split(r"(\s+)", sg):
+                if not part:
+                    continue
+                if part.isspace():
+                    if cur:
+                        out.append(cur)
+                        cur = []
+                else:
+                    cur.append(part)
+        if cur:
+            out.append(cur)
+        return out
+
+    def __repr__(self):
+        return "".join(x if isinstance(x, str) else repr(x) for x in self.segs)
+
+
+class _Ret(Exception):
+    def __init__(self, value):
+        self.value = value
+
+
+class _PathEnds(Exception):
+    pass
+
+
+_PCT = re.compile(r"%(?:\((\w+)\))?([#0\- +]*(?:\*|\d+)?(?:\.(?:\*|\d+))?)[hlL]?([diouxXeEfFgGcrsa%])")
+_STR_METHODS = ("upper", "lower", "strip", "lstrip", "rstrip", "title", "capitalize")
+
+
+class TemplateExec(object):
+    """Path-enumerating evaluation of a small string-producing function to the string templates it can return.  It follows
+    temporaries (locals are substituted by their definitions), if/elif statements and conditional expressions alike (a test
+    that is not decided by constants forks the path), and gives `'..{}..'.format(a)`, `'..%s..' % a`, f-strings, `+`
+    concatenation and `sep.join([..])` the same meaning: a sequence of literal text and holes.  Unsupported statements raise
+    ExtractError (never guesses)."""
+
+    MAX_PATHS = 256
+
+    def __init__(self, fn):
+        self.fn = fn
+
+    # ------------------------------------------------------------ driver
+    def returns(self):
+        work, out = [[]], []
+        while work:
+            self.script = work.pop()
+            self.k = 0
+            self.work = work
+            try:
+                self.block(self.fn.body, {})
+                val = None
+            except _Ret as r:
+                val = r.value
+            except _PathEnds:
+                continue
+            out.append(val)
+            if len(out) > self.MAX_PATHS:
+                raise ExtractError("%s: too many paths for the string-template evaluation" % getattr(self.fn, "_qual", self.fn.name))
+        return out
+
+    def templates(self):
+        """the string templates of all returning paths (a symbolic return value is one hole)."""
+        res = []
+        for v in self.returns():
+            if v is None:
+                continue
+            res.append(self.as_tmpl(v))
+        return res
+
+    def decide(self):
+        if self.k < len(self.script):
+            d = self.script[self.k]
+        else:
+            d = False
+            self.work.append(self.script[:self.k] + [True])
+            self.script.append(False)
+        self.k += 1
+        return d
+
+    # ------------------------------------------------------------ values
+    def as_tmpl(self, v, spec="", conv=None):
+        if isinstance(v, Tmpl) and not spec and conv in (None, "s"):
+            return v
+        if isinstance(v, (str, int, float, bool)) or v is None:
+            if conv in (None, "s"):
+                try:
+                    return Tmpl([format(v if conv is None else str(v), spec)])
+                except (ValueError, TypeError):
+                    pass
+            if conv == "r" and not spec:
+                return Tmpl([repr(v)])
+        t = self.vtext(v)
+        if conv == "r":
+            t = "repr(%s)" % t
+        elif conv == "a":
+            t = "ascii(%s)" % t
+        if not spec or spec == "s":
+            # format(x, '') is str(x): str(x) in a plain hole and x in a plain hole are the same text
+            m = re.match(r"^str\((.*)\)$", t)
+            if m and _balanced(m.group(1)):
+                t = m.group(1)
+        return Tmpl([Hole(t, spec)])
+
+    def vtext(self, v):
+        if isinstance(v, Sym):
+            return v.text
+        if isinstance(v, Tmpl):
+            return "<%r>" % v
+        if isinstance(v, list):
+            return "[%s]" % ", ".join(self.vtext(x) for x in v)
+        return repr(v)
+
+    def subst(self, n, env):
+        """source text of n with every local replaced by its (symbolic) definition."""
+        ex = self
+
+        class T(ast.NodeTransformer):
+            def visit_Name(self, m):
+                if isinstance(m.ctx, ast.Load) and m.id in env:
+                    v = env[m.id]
+                    if isinstance(v, Sym):
+                        return ast.parse(v.text, mode="eval").body
+                    if isinstance(v, (str, int, float, bool)) or v is None:
+                        return ast.Constant(value=v)
+                    if isinstance(v, Tmpl) and all(isinstance(x, str) for x in v.segs):
+                        return ast.Constant(value="".join(v.segs))
+                return m
+        # (re-parse instead of deepcopy: the repository trees carry parent links)
+        return unparse(ast.fix_missing_locations(T().visit(ast.parse(unparse(n), mode="eval").body)))
+
+    # ------------------------------------------------------------ expressions
+    def ev(self, n, env):
+        if isinstance(n, ast.Constant):
+            return n.value
+        if isinstance(n, ast.Name):
+            if n.id in env:
+                return env[n.id]
+            if n.id in ("True", "False", "None"):
+                return {"True": True, "False": False, "None": None}[n.id]
+            return Sym(n.id)
+        if isinstance(n, (ast.Tuple, ast.List)):
+            return [self.ev(e, env) for e in n.elts]
+        if isinstance(n, ast.JoinedStr):
+            t = Tmpl()
+            for part in n.values:
+                if isinstance(part, ast.Constant):
+                    t.add(str(part.value))
+                else:
+                    spec = ""
+                    if part.format_spec is not None:
+                        sv = self.ev(part.format_spec, env)
+                        if isinstance(sv, Tmpl) and all(isinstance(x, str) for x in sv.segs):
+                            spec = "".join(sv.segs)
+                        elif isinstance(sv, str):
+                            spec = sv
+                        else:
+                            spec = "?"
+                    conv = {-1: None, 115: "s", 114: "r", 97: "a"}.get(part.conversion)
+                    t.add(self.as_tmpl(self.ev(part.value, env), spec, conv))
+            return t
+        if isinstance(n, ast.IfExp):
+            c = self.ev(n.test, env)
+            if isinstance(c, (Sym, Tmpl, list)):
+                c = self.decide()
+            return self.ev(n.body if c else n.orelse, env)
+        if isinstance(n, ast.BinOp) and isinstance(n.op, ast.Add):
+            a, b = self.ev(n.left, env), self.ev(n.right, env)
+            if isinstance(a, (str, Tmpl)) or isinstance(b, (str, Tmpl)):
+                return Tmpl([self.as_tmpl(a) if not isinstance(a, str) else a, self.as_tmpl(b) if not isinstance(b, str) else b])
+            if isinstance(a, (int, float)) and isinstance(b, (int, float)):
+                return a + b
+            return Sym(self.subst(n, env))
+        if isinstance(n, ast.BinOp) and isinstance(n.op, ast.Mod):
+            a = self.ev(n.left, env)
+            if isinstance(a, (str, Tmpl)):
+                return self.percent(a, self.ev(n.right, env), isinstance(n.right, ast.Tuple), n)
+            return Sym(self.subst(n, env))
+        if isinstance(n, ast.Call):
+            f = n.func
+            if isinstance(f, ast.Attribute):
+                if f.attr in ("format", "join") or f.attr in _STR_METHODS:
+                    base = self.ev(f.value, env)
+                    if isinstance(base, (str, Tmpl)):
+                        if f.attr == "format":
+                            return self.fmt(base, [self.ev(a, env) for a in n.args], {k.arg: self.ev(k.value, env) for k in n.keywords}, n)
+                        if f.attr == "join" and len(n.args) == 1:
+                            items = self.ev(n.args[0], env)
+                            if isinstance(items, list):
+                                t = Tmpl()
+                                for i, it in enumerate(items):
+                                    if i:
+                                        t.add(base)
+                                    t.add(it if isinstance(it, str) else self.as_tmpl(it))
+                                return t
+                        if f.attr in _STR_METHODS and not n.args:
+                            return self.str_method(base, f.attr)
+            if isinstance(f, ast.Name) and f.id == "str" and len(n.args) == 1 and not n.keywords:
+                v = self.ev(n.args[0], env)
+                if isinstance(v, (str, Tmpl)):
+                    return v
+                if isinstance(v, (int, float, bool)) or v is None:
+                    return str(v)
+            return Sym(self.subst(n, env))
+        return Sym(self.subst(n, env))
+
+    def str_method(self, base, meth):
+        if isinstance(base, str):
+            return getattr(base, meth)()
+        if meth in ("upper", "lower"):
+            return Tmpl([getattr(x, meth)() if isinstance(x, str) else Hole("%s.%s()" % (_paren(x.text), meth), x.spec) for x in base.segs])
+        return Tmpl([Hole("%s.%s()" % (self.vtext(base), meth))])
+
+    def fmt(self, base, args, kwargs, node):
+        import string
+        if isinstance(base, Tmpl):
+            if not all(isinstance(x, str) for x in base.segs):
+                raise ExtractError("format() applied to a string that already has varying parts: %s" % unparse(node))
+            base = "".join(base.segs)
+        t = Tmpl()
+        auto = 0
+        try:
+            fields = list(string.Formatter().parse(base))
+        except ValueError as e:
+            raise ExtractError("format string %r not parseable: %s" % (base, e))
+        for lit, field, spec, conv in fields:
+            t.add(lit)
+            if field is None:
+                continue
+            m = re.match(r"^([^.\[]*)(.*)$", field)
+            head, rest = m.group(1), m.group(2)
+            if head == "":
+                idx = auto
+                auto += 1
+            elif head.isdigit():
+                idx = int(head)
+            else:
+                idx = head
+            if isinstance(idx, int):
+                if idx >= len(args):
+                    raise ExtractError("format field %r has no argument in %s" % (field, unparse(node)))
+                v = args[idx]
+            else:
+                if idx not in kwargs:
+                    raise ExtractError("format field %r has no argument in %s" % (field, unparse(node)))
+                v = kwargs[idx]
+            if rest:
+                v = Sym(_paren(self.vtext(v)) + rest)
+            t.add(self.as_tmpl(v, spec or "", conv))
+        return t
+
+    def percent(self, base, right, is_tuple, node):
+        if isinstance(base, Tmpl):
+            if not all(isinstance(x, str) for x in base.segs):
+                raise ExtractError("%% applied to a string that already has varying parts: %s" % unparse(node))
+            base = "".join(base.segs)
+        args = list(right) if (is_tuple and isinstance(right, list)) else [right]
+        t = Tmpl()
+        pos = ai = 0
+        for m in _PCT.finditer(base):
+            t.add(base[pos:m.start()])
+            pos = m.end()
+            key, flags, c = m.group(1), m.group(2), m.group(3)
+            if c == "%":
+                t.add("%")
+                continue
+            if key is not None:
+                raise ExtractError("mapping-key %%-format not modelled: %s" % unparse(node))
+            if ai >= len(args):
+                raise ExtractError("%%-format has more fields than arguments: %s" % unparse(node))
+            v = args[ai]
+            ai += 1
+            if c == "s" and not flags:
+                t.add(self.as_tmpl(v))
+            elif c == "r" and not flags:
+                t.add(self.as_tmpl(v, "", "r"))
+            elif isinstance(v, (int, float)) and not isinstance(v, bool):
+                t.add(("%" + flags + c) % v)
+            else:
+                t.add(Tmpl([Hole(self.vtext(v), "%" + flags + c)]))
+        t.add(base[pos:])
+        return t
+
+    # ------------------------------------------------------------ statements
+    def block(self, stmts, env):
+        for s in stmts:
+            self.stmt(s, env)
+
+    def stmt(self, s, env):
+        if isinstance(s, (ast.Pass, ast.Expr, ast.Import, ast.ImportFrom)):
+            return
+        if isinstance(s, ast.Assign):
+            v = self.ev(s.value, env)
+            for t in s.targets:
+                if isinstance(t, ast.Name):
+                    env[t.id] = v
+                elif isinstance(t, (ast.Tuple, ast.List)) and isinstance(v, list) and len(v) == len(t.elts) and all(isinstance(e, ast.Name) for e in t.elts):
+                    for e, x in zip(t.elts, v):
+                        env[e.id] = x
+                elif isinstance(t, (ast.Tuple, ast.List)):
+                    for i, e in enumerate(t.elts):
+                        if isinstance(e, ast.Name):
+                            env[e.id] = Sym("%s[%d]" % (_paren(self.vtext(v)), i))
+            return
+        if isinstance(s, ast.AugAssign) and isinstance(s.target, ast.Name) and isinstance(s.op, ast.Add):
+            env[s.target.id] = self.ev(ast.BinOp(left=ast.Name(id=s.target.id, ctx=ast.Load()), op=ast.Add(), right=s.value), env)
+            return
+        if isinstance(s, ast.If):
+            c = self.ev(s.test, env)
+            if isinstance(c, (Sym, Tmpl, list)):
+                c = self.decide()
+            self.block(s.body if c else s.orelse, env)
+            return
+        if isinstance(s, ast.Return):
+            raise _Ret(self.ev(s.value, env) if s.value is not None else None)
+        if isinstance(s, ast.Raise):
+            raise _PathEnds()
+        raise ExtractError("%s: statement %s at line %s is outside the string-template fragment" % (
+            getattr(self.fn, "_qual", self.fn.name), type(s).__name__, getattr(s, "lineno", "?")))
+
+
+def _balanced(t):
+    d = 0
+    for ch in t:
+        if ch in "([{":
+            d += 1
+        elif ch in ")]}":
+            d -= 1
+            if d < 0:
+                return False
+    return d == 0
+
+
+def _paren(t):
+    try:
+        n = ast.parse(t, mode="eval").body
+    except SyntaxError:
+        return "(%s)" % t
+    return t if isinstance(n, (ast.Name, ast.Attribute, ast.Call, ast.Subscript, ast.Constant)) else "(%s)" % t
+
+
+def token_table(templates):
+    """{token index: sorted hole texts} over all templates: the tokens that vary; plus the literal tokens per index."""
+    varying, literal = {}, {}
+    for t in templates:
+        for i, tok in enumerate(t.tokens()):
+            holes = [p.text for p in tok if isinstance(p, Hole)]
+            if holes:
+                varying.setdefault(i, set()).add(" + ".join(holes) if len(holes) > 1 else holes[0])
+            else:
+                literal.setdefault(i, set()).add("".join(tok))
+    return {i: sorted(v) for i, v in varying.items()}, literal
+
+
+# identities of recorded findings were fixed when the hole was still named after a local temporary of the serialiser; the
+# semantic identity (the resolved expression) is mapped to that recorded label so that the record stays attached to the same fact
+RECORDED_LABELS = {("ValueCondition.__str__", "self._source_attr.upper()"): "att.upper()"}
+
+
+def hole_label(qual, texts):
+    return " | ".join(RECORDED_LABELS.get((qual, t), t) for t in texts)
+
+
 # --------------------------------------------------------------------------- the rules
 def rule_keys(repo, chk):
     ct = ClassTable(repo)
@@ -567,6 +993,168 @@ def enum_members(repo, rel, name):
     return canon, all_names, returns_name, c
 
 
+class _PyExc(Exception):
+    """a Python exception the modelled code would raise (KeyError of an enum / dict lookup ...)."""
+
+    def __init__(self, kind):
+        Exception.__init__(self, kind)
+        self.kind = kind
+
+
+def enum_evaluator(repo, rel, enums):
+    """concrete evaluator (sa/peval.py + the modelled str/re calls of _shared._string_evaluator) for small functions that
+    dispatch on strings / enum members: knows the members of the given enum classes ({name: (rel, class name)}) as abstract
+    objects (aliases are the same object), module-level constants of `rel`, dict displays and `.get`, subscripts, isinstance
+    on strings and enum members, and try/except around a failing lookup.  Nothing of the repository runs.
+    -> (make(env) -> evaluator, members {enum: {member name: Obj}})"""
+    from ..peval import Obj, Unknown, Raised
+    from ._shared import _string_evaluator
+    Base, base_hook = _string_evaluator(repo)
+    members, lookup = {}, {}
+    for en, (erel, ecls) in enums.items():
+        c = repo.cls(erel, ecls)
+        byval, tab = {}, {}
+        for n in c.body:
+            if isinstance(n, ast.Assign) and len(n.targets) == 1 and isinstance(n.targets[0], ast.Name):
+                v = unparse(n.value)
+                if v not in byval:
+                    byval[v] = Obj("%s.%s" % (en, n.targets[0].id), {"name": n.targets[0].id, "value": const(n.value, v)}, cls=en)
+                tab[n.targets[0].id] = byval[v]
+        members[en] = tab
+        # MixType-style __init__ registers the upper / lower case spellings of every name in _member_map_
+        look = dict(tab)
+        ini = [n for n in c.body if isinstance(n, ast.FunctionDef) and n.name == "__init__"]
+        if ini and "_member_map_" in unparse(ini[0]):
+            for nm, o in tab.items():
+                if "upper()" in unparse(ini[0]):
+                    look.setdefault(nm.upper(), o)
+                if "lower()" in unparse(ini[0]):
+                    look.setdefault(nm.lower(), o)
+        lookup[en] = look
+
+    def class_attr(d):
+        parts = d.split(".")
+        if parts[0] in members:
+            if len(parts) == 1:
+                return Obj("enum:" + parts[0], {}, cls="enumclass")
+            if parts[1] in members[parts[0]]:
+                o = members[parts[0]][parts[1]]
+                for extra in parts[2:]:
+                    if not isinstance(o, Obj) or extra not in o.attrs:
+                        raise Unknown("attribute %s" % d)
+                    o = o.attrs[extra]
+                return o
+            raise Unknown("no member %s" % d)
+        if len(parts) == 1:
+            try:
+                node = repo.module_assign(rel, d)
+            except AnchorError:
+                raise Unknown("unbound name %s" % d)
+            return make({}).ev(node)
+        raise Unknown("unknown dotted name %s" % d)
+
+    def type_names(t):
+        if isinstance(t, (ast.Tuple, ast.List)):
+            out = set()
+            for e in t.elts:
+                out |= type_names(e)
+            return out
+        return {dotted(t) or unparse(t)}
+
+    def hook(name, n, ev):
+        if name == "isinstance" and len(n.args) == 2:
+            v = ev.ev(n.args[0])
+            tn = type_names(n.args[1])
+            if isinstance(v, str):
+                return bool(tn & {"str", "six.string_types", "basestring", "object"})
+            if isinstance(v, Obj) and v.cls in members:
+                return bool(tn & {v.cls, "enum.Enum", "Enum", "object"})
+            if isinstance(v, bool):
+                return bool(tn & {"bool", "int", "object"})
+            if isinstance(v, (int, float)):
+                return bool(tn & {type(v).__name__, "object"})
+            if v is None:
+                return bool(tn & {"type(None)", "object"})
+            raise Unknown("isinstance of %r" % (v,))
+        if isinstance(n.func, ast.Attribute) and n.func.attr == "get" and 1 <= len(n.args) <= 2 and not n.keywords:
+            base = ev.ev(n.func.value)
+            if isinstance(base, dict):
+                return base.get(ev.ev(n.args[0]), ev.ev(n.args[1]) if len(n.args) == 2 else None)
+        if name in members and len(n.args) == 1:     # MixType(0): lookup by value
+            v = ev.ev(n.args[0])
+            for o in members[name].values():
+                if o.attrs["value"] == v:
+                    return o
+            raise _PyExc("ValueError")
+        return base_hook(name, n, ev)
+
+    class Ev(Base):
+        def e_Dict(self, n):
+            return {self.ev(k): self.ev(v) for k, v in zip(n.keys, n.values)}
+
+        def e_Subscript(self, n):
+            b = self.ev(n.value)
+            if isinstance(b, Obj) and b.cls == "enumclass":
+                k = self.ev(n.slice)
+                tab = lookup[b.name.split(":", 1)[1]]
+                if isinstance(k, str) and k in tab:
+                    return tab[k]
+                raise _PyExc("KeyError")
+            if isinstance(b, dict):
+                k = self.ev(n.slice)
+                if k in b:
+                    return b[k]
+                raise _PyExc("KeyError")
+            return Base.e_Subscript(self, n)
+
+        def e_Compare(self, n):
+            # `x in {..}` / `x in dict`: membership among the keys
+            if len(n.ops) == 1 and isinstance(n.ops[0], (ast.In, ast.NotIn)):
+                right = self.ev(n.comparators[0])
+                if isinstance(right, dict):
+                    r = self.ev(n.left) in right
+                    return r if isinstance(n.ops[0], ast.In) else not r
+            return Base.e_Compare(self, n)
+
+        def stmt(self, s_):
+            if isinstance(s_, ast.Try) and not s_.finalbody:
+                try:
+                    self.block(s_.body)
+                except _PyExc as e:
+                    for h in s_.handlers:
+                        hn = type_names(h.type) if h.type is not None else {"Exception"}
+                        if e.kind in hn or hn & {"Exception", "BaseException", "LookupError" if e.kind == "KeyError" else "Exception"}:
+                            self.block(h.body)
+                            return
+                    raise
+                self.block(s_.orelse)
+                return
+            return Base.stmt(self, s_)
+
+    def make(env):
+        return Ev(env, class_attr, hook)
+    return make, members
+
+
+def run_setter(make, fn, value):
+    """evaluate a property setter `fn(self, value)` concretely: -> ('stored', {field: value}) or ('raises', text)."""
+    from ..peval import Obj, Raised, Unknown
+    ps = params(fn)
+    if len(ps) != 1:
+        raise ExtractError("%s: setter with %d parameters" % (fn._qual, len(ps)))
+    me = Obj("self", {})
+    ev = make({"self": me, ps[0]: value})
+    try:
+        ev.run(fn.body)
+    except Raised as r:
+        return "raises", norm(r.node)
+    except _PyExc as e:
+        return "raises", e.kind
+    except Unknown as e:
+        raise ExtractError("%s not evaluable for the value %r: %s" % (fn._qual, value, e))
+    return "stored", dict(me.attrs)
+
+
 def rule_enum_vocab(repo, chk, ct):
     """R-C13-5: strings an enum-valued key is emitted as are accepted where the key lands."""
     # Tank.mixing_model : MixType
@@ -576,24 +1164,32 @@ def rule_enum_vocab(repo, chk, ct):
         raise AnchorError("Tank.mixing_model setter vanished")
     chk.fn(st)
     canon, all_names, returns_name, c = enum_members(repo, EUTIL, "MixType")
-    accepted = set()
-    upper = any(isinstance(n, ast.Call) and isinstance(n.func, ast.Attribute) and n.func.attr == "upper" for n in walk(st))
-    lookup = any(isinstance(n, ast.Subscript) and isinstance(n.value, ast.Name) and n.value.id == "MixType" for n in walk(st))
-    for n in walk(st):
-        if isinstance(n, ast.Compare) and len(n.ops) == 1:
-            if isinstance(n.ops[0], ast.Eq) and isinstance(const(n.comparators[0]), str):
-                accepted.add(const(n.comparators[0]))
-            if isinstance(n.ops[0], ast.In) and isinstance(n.comparators[0], (ast.Tuple, ast.List, ast.Set)):
-                accepted |= {const(e) for e in n.comparators[0].elts if isinstance(const(e), str)}
-    chk.sample({"enum": "MixType", "canonical_members": canon, "str_returns_name": returns_name, "setter_accepts": sorted(accepted), "upper": upper})
     if not returns_name:
         raise ExtractError("MixType.__str__ no longer returns self.name; emitted strings unknown")
+    fields = backing_fields(pub["mixing_model"]["getter"])
+    if not fields:
+        raise ExtractError("Tank.mixing_model getter: backing field not found")
+    # the setter is EVALUATED on every string to_dict can emit (and, for the message, on every string it mentions): whatever
+    # its shape (if/elif chain, `in` tests, lookup table, MixType[...] lookup), the emitted name must be stored as the same member
+    make, members = enum_evaluator(repo, ELEM, {"MixType": (EUTIL, "MixType")})
+    vocab = set(str_consts(st))
+    for nm in names_in_load(st):
+        try:
+            vocab |= set(str_consts(repo.module_assign(ELEM, nm)))
+        except AnchorError:
+            pass
+    accepted = sorted(v for v in vocab if " " not in v and run_setter(make, st, v)[0] == "stored")
+    chk.sample({"enum": "MixType", "canonical_members": canon, "str_returns_name": returns_name, "setter_accepts": accepted})
     for m in canon:
-        img = m.upper() if upper else m
-        ok = lookup or img in accepted
+        kind, res = run_setter(make, st, m)
+        got = [res[f] for f in sorted(fields) if f in res] if kind == "stored" else []
+        ok = kind == "stored" and bool(got) and all(g == members["MixType"][m] for g in got)
+        if kind == "stored":
+            why = "the setter stores %s for the string %r" % (got, m)
+        else:
+            why = "the setter accepts only %s: from_dict raises ValueError for such a tank" % accepted
         chk.expect(ok, "R-C13-5", "Tank.mixing_model setter accepts %r, the string to_dict emits for MixType.%s" % (m, m), loc(st),
-                   "to_dict emits str(MixType.%s) = %r; the setter accepts only %s: from_dict raises ValueError for such a tank" % (m, m, sorted(accepted)),
-                   expected=img, found=sorted(accepted))
+                   "to_dict emits str(MixType.%s) = %r; %s" % (m, m, why), expected="MixType.%s" % m, found=got if kind == "stored" else accepted)
     # initial_status : LinkStatus, converted by LinkStatus[...] in the registry add_* methods
     canon, all_names, returns_name, c = enum_members(repo, BASE, "LinkStatus")
     if not returns_name:
@@ -606,6 +1202,162 @@ def rule_enum_vocab(repo, chk, ct):
         chk.expect(bool(conv), "R-C13-5", "LinkRegistry.%s converts a string initial_status by name lookup LinkStatus[...]" % meth, loc(fn),
                    "to_dict emits str(LinkStatus.X) = 'X' (the member name); the consumer must look the name up", found="no LinkStatus[initial_status]")
     chk.floor("R-C13-5", len(canon) and 4 + 3)
+
+
+def comparison_texts(repo, text_fn):
+    """Comparison member -> the word Comparison.text returns for it, by evaluating the property on every member (an if/elif
+    chain, early returns and a lookup table all evaluate alike); members for which it raises emit nothing."""
+    from ..peval import Unknown, Raised
+    make, members = enum_evaluator(repo, CTRL, {"Comparison": (CTRL, "Comparison")})
+    out = {}
+    for nm, obj in sorted(members["Comparison"].items()):
+        if obj.attrs["name"] != nm:
+            continue      # alias
+        try:
+            v = make({"self": obj}).run(text_fn.body)
+        except (Raised, _PyExc):
+            continue
+        except Unknown as e:
+            raise ExtractError("Comparison.text not evaluable for member %s: %s" % (nm, e))
+        if isinstance(v, str):
+            out[nm] = v
+    return out
+
+
+def aliases_of(fn, subject):
+    """names that hold `subject` (source text, e.g. 'current[6]'), possibly upper/lower-cased or stripped, through plain assignments."""
+    al = {subject}
+    for _ in range(3):
+        for n in walk(fn):
+            if isinstance(n, ast.Assign) and len(n.targets) == 1 and isinstance(n.targets[0], ast.Name):
+                v = n.value
+                while isinstance(v, ast.Call) and isinstance(v.func, ast.Attribute) and v.func.attr in ("upper", "lower", "strip") and not v.args:
+                    v = v.func.value
+                if unparse(v) in al:
+                    al.add(n.targets[0].id)
+    return al
+
+
+def dispatched_strings(fn, subject):
+    """the strings `subject` (or a temporary holding it) is tested against / looked up with: `s == 'X'`, `'X' == s`,
+    `s in ('X', ..)`, and the keys of a dict display indexed with it (`{..}[s]`, `{..}.get(s)`, also through a local table)."""
+    al = aliases_of(fn, subject)
+
+    def is_subj(e):
+        while isinstance(e, ast.Call) and isinstance(e.func, ast.Attribute) and e.func.attr in ("upper", "lower", "strip") and not e.args:
+            e = e.func.value
+        return unparse(e) in al
+
+    tables = {}
+    for n in walk(fn):
+        if isinstance(n, ast.Assign) and len(n.targets) == 1 and isinstance(n.targets[0], ast.Name) and isinstance(n.value, ast.Dict):
+            tables[n.targets[0].id] = n.value
+
+    def table(e):
+        if isinstance(e, ast.Dict):
+            return e
+        if isinstance(e, ast.Name):
+            return tables.get(e.id)
+        return None
+
+    out = set()
+    for n in walk(fn):
+        if isinstance(n, ast.Compare) and len(n.ops) == 1:
+            l, r = n.left, n.comparators[0]
+            if isinstance(n.ops[0], ast.Eq):
+                if is_subj(l) and isinstance(const(r), str):
+                    out.add(const(r))
+                if is_subj(r) and isinstance(const(l), str):
+                    out.add(const(l))
+            if isinstance(n.ops[0], ast.In) and is_subj(l):
+                if isinstance(r, (ast.Tuple, ast.List, ast.Set)):
+                    out |= {const(e) for e in r.elts if isinstance(const(e), str)}
+                elif table(r) is not None:
+                    out |= {const(k) for k in table(r).keys if isinstance(const(k), str)}
+        if isinstance(n, ast.Subscript) and table(n.value) is not None and is_subj(n.slice):
+            out |= {const(k) for k in table(n.value).keys if isinstance(const(k), str)}
+        if isinstance(n, ast.Call) and isinstance(n.func, ast.Attribute) and n.func.attr == "get" and n.args and table(n.func.value) is not None and is_subj(n.args[0]):
+            out |= {const(k) for k in table(n.func.value).keys if isinstance(const(k), str)}
+    return out
+
+
+def node_dispatch_tokens(repo, rcl, kinds):
+    """first tokens of a control line for which _read_control_line fetches the element with get_node (not get_link).
+    Decided by EVALUATING the head of the function (up to the binding of the element) on a line starting with each kind, so
+    any shape of the dispatch (in-test, == chain, lookup table, conditional expression, hoisted temporaries) gives the same
+    answer; only if that head is outside the evaluable fragment the syntactic reading of the `if` is used."""
+    from ..peval import Obj, Unknown, Raised, Returned
+    from ._shared import _string_evaluator
+    Ev, hook0 = _string_evaluator(repo)
+    ps = params(rcl)
+    if len(ps) < 2:
+        raise ExtractError("_read_control_line: signature changed: %s" % ps)
+
+    def hook(name, n, ev):
+        if isinstance(n.func, ast.Attribute) and n.func.attr in ("get_node", "get_link"):
+            return Obj(n.func.attr, {"arg": ev.ev(n.args[0]) if n.args else None})
+        if isinstance(n.func, ast.Name) and isinstance(ev.env.get(n.func.id), Obj) and ev.env[n.func.id].name == "bound method":
+            return Obj(ev.env[n.func.id].attrs["meth"], {"arg": ev.ev(n.args[0]) if n.args else None})
+        return hook0(name, n, ev)
+
+    def attr_hook(obj, attr):
+        if attr in ("get_node", "get_link") and isinstance(obj, Obj) and obj.name == "wn":
+            return Obj("bound method", {"meth": attr})
+        return NotImplemented
+
+    def consts(d):
+        try:
+            node = repo.module_assign(EIO, d)
+        except AnchorError:
+            raise Unknown("unbound name %s" % d)
+        return Ev({}, consts, hook).ev(node)
+
+    class Ev(Ev):
+        def e_Dict(self, n):
+            return {self.ev(k): self.ev(v) for k, v in zip(n.keys, n.values)}
+
+    def hook_get(name, n, ev):
+        if isinstance(n.func, ast.Attribute) and n.func.attr == "get" and 1 <= len(n.args) <= 2:
+            base = ev.ev(n.func.value)
+            if isinstance(base, dict):
+                return base.get(ev.ev(n.args[0]), ev.ev(n.args[1]) if len(n.args) == 2 else None)
+        return hook(name, n, ev)
+
+    out, evaluable = set(), True
+    for k in kinds:
+        env = {ps[0]: "%s e1 TRUE AT TIME 3600" % k, ps[1]: Obj("wn", {})}
+        for extra in ps[2:]:
+            env[extra] = Obj(extra, {})
+        ev = Ev(env, consts, hook_get, attr_hook)
+        fetched = None
+        try:
+            for st in rcl.body:
+                ev.stmt(st)
+                fetched = [v for v in ev.env.values() if isinstance(v, Obj) and v.name in ("get_node", "get_link") and v.attrs.get("arg") == "e1"]
+                if fetched:
+                    break
+        except (Unknown, Raised, Returned, TypeError, IndexError, KeyError, AttributeError):
+            fetched = None
+        if not fetched:
+            evaluable = False
+            break
+        if all(v.name == "get_node" for v in fetched):
+            out.add(k)
+    if evaluable:
+        return out
+    node_tokens = set()
+    for n in walk(rcl):
+        if isinstance(n, ast.If) and any(isinstance(c, ast.Call) and last_attr(c) == "get_node" and "element" in unparse(parent(c)) for c in calls(ast.Module(body=n.body, type_ignores=[]))):
+            t = n.test
+            if isinstance(t, ast.Compare) and "current[0]" in unparse(t.left):
+                comp = t.comparators[0]
+                if isinstance(t.ops[0], ast.Eq) and isinstance(const(comp), str):
+                    node_tokens.add(const(comp))
+                elif isinstance(t.ops[0], ast.In) and isinstance(comp, (ast.Tuple, ast.List, ast.Set)):
+                    node_tokens |= {const(e) for e in comp.elts}
+    if not node_tokens:
+        raise ExtractError("_read_control_line: node / link dispatch on the first token not found")
+    return node_tokens
 
 
 def rule_control_text(repo, chk, fd):
@@ -629,18 +1381,11 @@ def rule_control_text(repo, chk, fd):
             leak_kinds.append(val.upper())
     act_str = repo.func(CTRL, "ControlAction.__str__")
     chk.fn(act_str)
-    if "node_type" not in unparse(act_str) or "upper" not in unparse(act_str):
-        raise ExtractError("ControlAction.__str__ no longer prefixes the upper-cased node_type/link_type")
-    node_tokens = set()
-    for n in walk(rcl):
-        if isinstance(n, ast.If) and any(isinstance(c, ast.Call) and last_attr(c) == "get_node" and "element" in unparse(parent(c)) for c in calls(ast.Module(body=n.body, type_ignores=[]))):
-            t = n.test
-            if isinstance(t, ast.Compare) and "current[0]" in unparse(t.left):
-                comp = t.comparators[0]
-                if isinstance(t.ops[0], ast.Eq) and isinstance(const(comp), str):
-                    node_tokens.add(const(comp))
-                elif isinstance(t.ops[0], ast.In) and isinstance(comp, (ast.Tuple, ast.List, ast.Set)):
-                    node_tokens |= {const(e) for e in comp.elts}
+    act_tokens, act_literal = token_table(TemplateExec(act_str).templates())
+    first = act_tokens.get(0, [])
+    if not first or not any("node_type" in t for t in first) or not all(t.endswith(".upper()") for t in first):
+        raise ExtractError("ControlAction.__str__ no longer prefixes the upper-cased node_type/link_type (first token: %s)" % (first or sorted(act_literal.get(0, []))))
+    node_tokens = node_dispatch_tokens(repo, rcl, sorted(set(leak_kinds) | {"JUNCTION", "TANK", "RESERVOIR", "PIPE", "PUMP", "VALVE", "LINK"}))
     chk.sample({"leak_capable_node_kinds": leak_kinds, "node_tokens_read_as_nodes": sorted(node_tokens)})
     for k in leak_kinds:
         chk.expect(k in node_tokens, "R-C13-3a", "a %s leak action line is dispatched as a node action by _read_control_line" % k, loc(rcl),
@@ -650,22 +1395,15 @@ def rule_control_text(repo, chk, fd):
 
     # (b) relation vocabulary of simple controls
     text = repo.func(CTRL, "Comparison.text")
-    emitted = {}
-    for n in walk(text):
-        if isinstance(n, ast.If):
-            t = n.test
-            if isinstance(t, ast.Compare) and isinstance(t.ops[0], ast.Is) and dotted(t.comparators[0]) and n.body and isinstance(n.body[0], ast.Return):
-                emitted[dotted(t.comparators[0]).split(".")[-1]] = const(n.body[0].value)
+    emitted = comparison_texts(repo, text)
     if len(emitted) < 6:
         raise ExtractError("Comparison.text table incomplete: %s" % emitted)
     vstr = repo.func(CTRL, "ValueCondition.__str__")
     chk.fn(vstr, text)
-    if "_relation.text" not in unparse(vstr):
+    cond_tokens, _ = token_table(TemplateExec(vstr).templates())
+    if not any(t.startswith("self._relation.text") for ts in cond_tokens.values() for t in ts):
         raise ExtractError("ValueCondition.__str__ no longer prints _relation.text")
-    accepted = set()
-    for n in walk(rcl):
-        if isinstance(n, ast.Compare) and "current[6]" in unparse(n.left) and isinstance(n.ops[0], ast.Eq) and isinstance(const(n.comparators[0]), str):
-            accepted.add(const(n.comparators[0]))
+    accepted = dispatched_strings(rcl, "current[6]")
     chk.sample({"relation_tokens_emitted": emitted, "relation_tokens_accepted": sorted(accepted)})
     for mem, tok in sorted(emitted.items()):
         chk.expect(tok.upper() in accepted, "R-C13-3b",
@@ -681,59 +1419,84 @@ def rule_control_text(repo, chk, fd):
             simple = n
     if simple is None:
         raise ExtractError("from_dict: simple-control branch not found")
-    used = {"ta": set(), "cond": set()}
-    for n in ast.walk(ast.Module(body=simple.body, type_ignores=[])):
-        if isinstance(n, ast.Subscript) and isinstance(n.value, ast.Name) and n.value.id in used and isinstance(const(n.slice), int):
-            used[n.value.id].add(const(n.slice))
+    # the token lists: locals bound to <control>[...then_actions...]...split() / <control>['condition'].split(), whatever their names
+    role = {}
+    simple_mod = ast.Module(body=simple.body, type_ignores=[])
+    for n in ast.walk(simple_mod):
+        if isinstance(n, ast.Assign) and len(n.targets) == 1 and isinstance(n.targets[0], ast.Name) and isinstance(n.value, ast.Call) \
+                and isinstance(n.value.func, ast.Attribute) and n.value.func.attr == "split":
+            ks = str_consts(n.value.func.value)
+            if "then_actions" in ks:
+                role[n.targets[0].id] = "ta"
+            elif "condition" in ks:
+                role[n.targets[0].id] = "cond"
+    if set(role.values()) != {"ta", "cond"}:
+        raise ExtractError("from_dict: token lists of the action / condition text of a simple control not found (%s)" % role)
+    def used_in(node):
+        u = {"ta": set(), "cond": set()}
+        for n in ast.walk(node):
+            if isinstance(n, ast.Subscript) and isinstance(n.value, ast.Name) and n.value.id in role and isinstance(const(n.slice), int):
+                u[role[n.value.id]].add(const(n.slice))
+        return u
+    used = used_in(simple_mod)
+    # time conditions ('SYSTEM ...') and value conditions are rebuilt by different arms of one `if`: each kind of condition is
+    # held against the tokens its own arm uses (when the arms cannot be told apart, against all tokens used)
+    used_time = used_value = used["cond"]
+    arms = [n for n in ast.walk(simple_mod) if isinstance(n, ast.If) and "system" in [c.lower() for c in str_consts(n.test)]
+            and isinstance(n.test, ast.Compare) and len(n.test.ops) == 1 and isinstance(n.test.ops[0], (ast.Eq, ast.NotEq)) and n.orelse]
+    if len(arms) == 1:
+        a_sys, a_val = ast.Module(body=arms[0].body, type_ignores=[]), ast.Module(body=arms[0].orelse, type_ignores=[])
+        if isinstance(arms[0].test.ops[0], ast.NotEq):
+            a_sys, a_val = a_val, a_sys
+        used_time, used_value = used_in(a_sys)["cond"], used_in(a_val)["cond"]
 
-    def fmt_fields(fn):
-        for r in walk(fn):
-            if isinstance(r, ast.Return) and isinstance(r.value, ast.Call) and isinstance(r.value.func, ast.Attribute) and r.value.func.attr == "format" \
-                    and isinstance(const(r.value.func.value), str):
-                return const(r.value.func.value).split(), r.value.args
-        raise ExtractError("%s: format string not found" % fn._qual)
-    toks, args = fmt_fields(act_str)
-    ai = 0
-    for i, t in enumerate(toks):
-        if "{" in t:
-            what = norm(args[ai]) if ai < len(args) else "?"
-            ai += 1
-            chk.expect(i in used["ta"], "R-C13-3c", "action token %d (%s) of ControlAction.__str__ is used by from_dict" % (i, what), loc(fd, simple),
-                       "from_dict rebuilds the control line from tokens %s of the action text; token %d carries %s and is dropped" % (sorted(used["ta"]), i, what))
-    toks, args = fmt_fields(vstr)
-    ai = 0
-    for i, t in enumerate(toks):
-        if "{" in t:
-            what = norm(args[ai]) if ai < len(args) else "?"
-            ai += 1
-            chk.expect(i in used["cond"], "R-C13-3c", "condition token %d (%s) of ValueCondition.__str__ is used by from_dict" % (i, what), loc(fd, simple),
-                       "from_dict rebuilds the control line from tokens %s of the condition text; token %d carries %s and is dropped "
-                       "(the re-reader then assumes tank level / junction pressure)" % (sorted(used["cond"]), i, what))
+    def varying_tokens(fn, first_token=None):
+        """token index -> label of what the token carries, from the string templates the serialiser can return (any of
+        str.format / % / f-string / concatenation, with or without temporaries)."""
+        tmpls = TemplateExec(fn).templates()
+        if first_token is not None:
+            tmpls = [t for t in tmpls if t.tokens() and t.tokens()[0] == [first_token]]
+        if not tmpls:
+            raise ExtractError("%s: no returned string%s found" % (fn._qual, " starting with %r" % first_token if first_token else ""))
+        var, lit = token_table(tmpls)
+        if not var:
+            raise ExtractError("%s: the returned string has no varying token" % fn._qual)
+        return var
+
+    for i, texts in sorted(act_tokens.items()):
+        what = hole_label(act_str._qual, texts)
+        chk.expect(i in used["ta"], "R-C13-3c", "action token %d (%s) of ControlAction.__str__ is used by from_dict" % (i, what), loc(fd, simple),
+                   "from_dict rebuilds the control line from tokens %s of the action text; token %d carries %s and is dropped" % (sorted(used["ta"]), i, what))
+    for i, texts in sorted(cond_tokens.items()):
+        what = hole_label(vstr._qual, texts)
+        chk.expect(i in used_value, "R-C13-3c", "condition token %d (%s) of ValueCondition.__str__ is used by from_dict" % (i, what), loc(fd, simple),
+                   "from_dict rebuilds the control line from tokens %s of the condition text; token %d carries %s and is dropped "
+                   "(the re-reader then assumes tank level / junction pressure)" % (sorted(used_value), i, what))
     # time conditions: 'SYSTEM TIME <REL> <t>' / 'SYSTEM CLOCKTIME <REL> <t> <AM/PM>'
     for cn in ("SimTimeCondition", "TimeOfDayCondition"):
         sfn = repo.func(CTRL, cn + ".__str__")
         chk.fn(sfn)
-        f = None
-        for n in walk(sfn):
-            if isinstance(n, ast.Call) and isinstance(n.func, ast.Attribute) and n.func.attr == "format" and isinstance(const(n.func.value), str) \
-                    and const(n.func.value).startswith("SYSTEM"):
-                f = n
-        if f is None:
-            raise ExtractError("%s.__str__: 'SYSTEM ...' format not found" % cn)
-        toks = const(f.func.value).split()
-        ai = 0
-        for i, t in enumerate(toks):
-            if "{" in t:
-                what = norm(f.args[ai]) if ai < len(f.args) else "?"
-                ai += 1
-                chk.expect(i in used["cond"], "R-C13-3c", "condition token %d (%s) of %s.__str__ is used by from_dict" % (i, what, cn), loc(fd, simple),
-                           "from_dict rebuilds 'AT TIME/CLOCKTIME t' from tokens %s; token %d carries %s and is dropped (every time condition reads back as 'Is')" % (
-                               sorted(used["cond"]), i, what))
+        for i, texts in sorted(varying_tokens(sfn, "SYSTEM").items()):
+            what = hole_label(sfn._qual, texts)
+            chk.expect(i in used_time, "R-C13-3c", "condition token %d (%s) of %s.__str__ is used by from_dict" % (i, what, cn), loc(fd, simple),
+                       "from_dict rebuilds 'AT TIME/CLOCKTIME t' from tokens %s; token %d carries %s and is dropped (every time condition reads back as 'Is')" % (
+                           sorted(used_time), i, what))
     chk.floor("R-C13-3c", 3 + 5 + 4)
 
     # (d) units: the re-reader must not convert (the dictionary is SI)
     cs = [c for c in calls(ast.Module(body=simple.body, type_ignores=[])) if last_attr(c) == "_read_control_line"]
-    chk.expect(bool(cs) and len(cs[0].args) >= 3 and unparse(cs[0].args[2]).endswith("FlowUnits.SI"), "R-C13-3d",
+    rps = params(rcl)
+    units = []
+    for c in cs:
+        u = c.args[2] if len(c.args) >= 3 else None
+        for kw in c.keywords:
+            if len(rps) >= 3 and kw.arg == rps[2]:
+                u = kw.value
+        if isinstance(u, ast.Name):     # hoisted into a local of from_dict
+            defs = [a.value for a in walk(fd) if isinstance(a, ast.Assign) and len(a.targets) == 1 and isinstance(a.targets[0], ast.Name) and a.targets[0].id == u.id]
+            u = defs[0] if len(defs) == 1 else u
+        units.append(unparse(u) if u is not None else None)
+    chk.expect(bool(cs) and all(u is not None and u.endswith("FlowUnits.SI") for u in units), "R-C13-3d",
                "from_dict re-reads simple controls with FlowUnits.SI (no unit conversion)", loc(fd, simple), found=[norm(c) for c in cs])
     prl = repo.func(EIO, "_EpanetRule.parse_rules_lines")
     d = None
@@ -848,6 +1611,79 @@ WITNESSES = [
     dict(name="new-property-not-restored", file=ELEM,
          old="    @property\n    def node_type(self):\n        \"\"\"``\"Reservoir\"`` (read only)\"\"\"",
          new="    @property\n    def zone(self):\n        return self._zone\n    @zone.setter\n    def zone(self, v):\n        self._zone = v\n\n    @property\n    def node_type(self):\n        \"\"\"``\"Reservoir\"`` (read only)\"\"\"", rule="R-C13-1"),
+    dict(name="mixtype-lookup-table-without-mix2", file=ELEM,
+         old="            value = value.upper()\n            if value in ('MIXED', 'MIX1'): self._mixing_model = MixType.Mixed\n"
+             "            elif value in ('2COMP', 'MIX2'): self._mixing_model = MixType.TwoComp\n"
+             "            elif value == 'FIFO': self._mixing_model = MixType.FIFO\n            elif value == 'LIFO': self._mixing_model = MixType.LIFO\n"
+             "            else:\n                raise ValueError('Mixing model must be MIXED, 2COMP, FIFO or LIFO or a MixType object')\n",
+         new="            mix_type = {'MIXED': MixType.Mixed, 'MIX1': MixType.Mixed, '2COMP': MixType.TwoComp, 'FIFO': MixType.FIFO, 'LIFO': MixType.LIFO}.get(value.upper())\n"
+             "            if mix_type is None:\n                raise ValueError('Mixing model must be MIXED, 2COMP, FIFO or LIFO or a MixType object')\n"
+             "            self._mixing_model = mix_type\n", rule="R-C13-5"),
+    dict(name="mixtype-mix2-stored-as-mixed", file=ELEM, old="if value in ('MIXED', 'MIX1'): self._mixing_model", new="if value in ('MIXED', 'MIX1', 'MIX2'): self._mixing_model",
+         rule="R-C13-5"),
+    dict(name="time-condition-arm-drops-the-time-token", file=NIO,
+         old='cstr = " ".join(["AT", cond[1], cond[3], cond[4] if len(cond) > 4 else ""])', new='cstr = " ".join(["AT", cond[1], cond[4] if len(cond) > 4 else ""])',
+         rule="R-C13-3c"),
+    # ---- behaviour-preserving shapes that must stay quiet
+    dict(name="p-action-str-fstring", file=CTRL,
+         old='        return "{} {} {} IS {}".format(target_obj_type.upper(),\n                                       self._target_obj.name,\n'
+             '                                       self._attribute.upper(),\n                                       self._repr_value())\n',
+         new='        return f"{target_obj_type.upper()} {self._target_obj.name} {self._attribute.upper()} IS {self._repr_value()}"\n', silent=True),
+    dict(name="p-action-str-if-statement-and-join", file=CTRL,
+         old='        target_obj_type = (self._target_obj.link_type if isinstance(self._target_obj, Link) else \n                           self._target_obj.node_type)\n'
+             '        return "{} {} {} IS {}".format(target_obj_type.upper(),\n                                       self._target_obj.name,\n'
+             '                                       self._attribute.upper(),\n                                       self._repr_value())\n',
+         new='        if isinstance(self._target_obj, Link):\n            kind = self._target_obj.link_type\n        else:\n            kind = self._target_obj.node_type\n'
+             '        return " ".join([kind.upper(), str(self._target_obj.name), self._attribute.upper(), "IS", str(self._repr_value())])\n', silent=True),
+    dict(name="p-value-condition-str-percent-renamed-locals", file=CTRL,
+         old='        att = self._source_attr\n        rel = self._relation.text\n        val = self._repr_value(att, self._threshold)\n'
+             '        return "{} {} {} {} {}".format(typ.upper(), obj, att.upper(), rel.upper(), val)\n',
+         new='        attribute = self._source_attr\n'
+             '        return "%s %s %s %s %s" % (typ.upper(), obj, attribute.upper(), self._relation.text.upper(), self._repr_value(attribute, self._threshold))\n',
+         silent=True),
+    dict(name="p-simtime-str-fstring", file=CTRL,
+         old="fmt = 'SYSTEM TIME {} {}'.format(self._relation.text.upper(), self._sec_to_hours_min_sec(self._threshold))",
+         new="when = self._sec_to_hours_min_sec(self._threshold)\n        fmt = f'SYSTEM TIME {self._relation.text.upper()} {when!s}'", silent=True),
+    dict(name="p-comparison-text-lookup-table", file=CTRL,
+         old="        if self is Comparison.eq:\n            return 'Is'\n        elif self is Comparison.ne:\n            return 'Not'\n        elif self is Comparison.gt:\n"
+             "            return 'Above'\n        elif self is Comparison.ge:\n            return '>='\n        elif self is Comparison.lt:\n            return 'Below'\n"
+             "        elif self is Comparison.le:\n            return '<='\n",
+         new="        words = {Comparison.eq: 'Is', Comparison.ne: 'Not', Comparison.gt: 'Above', Comparison.ge: '>=', Comparison.lt: 'Below', Comparison.le: '<='}\n"
+             "        if self in words:\n            return words[self]\n", silent=True),
+    dict(name="p-mixing-model-module-lookup-table", file=ELEM,
+         old="            value = value.upper()\n            if value in ('MIXED', 'MIX1'): self._mixing_model = MixType.Mixed\n"
+             "            elif value in ('2COMP', 'MIX2'): self._mixing_model = MixType.TwoComp\n"
+             "            elif value == 'FIFO': self._mixing_model = MixType.FIFO\n            elif value == 'LIFO': self._mixing_model = MixType.LIFO\n"
+             "            else:\n                raise ValueError('Mixing model must be MIXED, 2COMP, FIFO or LIFO or a MixType object')\n",
+         new="            mix_type = _MIXING_MODEL_KEYWORDS.get(value.upper())\n"
+             "            if mix_type is None:\n                raise ValueError('Mixing model must be MIXED, 2COMP, FIFO or LIFO or a MixType object')\n"
+             "            self._mixing_model = mix_type\n",
+         also=[("class Tank(Node):\n", "_MIXING_MODEL_KEYWORDS = {\n    'MIXED': MixType.Mixed,\n    'MIX1': MixType.Mixed,\n    '2COMP': MixType.TwoComp,\n    'MIX2': MixType.TwoComp,\n"
+                "    'FIFO': MixType.FIFO,\n    'LIFO': MixType.LIFO,\n}\n\n\nclass Tank(Node):\n")], silent=True),
+    dict(name="p-mixing-model-early-returns", file=ELEM,
+         old="            value = value.upper()\n            if value in ('MIXED', 'MIX1'): self._mixing_model = MixType.Mixed\n"
+             "            elif value in ('2COMP', 'MIX2'): self._mixing_model = MixType.TwoComp\n"
+             "            elif value == 'FIFO': self._mixing_model = MixType.FIFO\n            elif value == 'LIFO': self._mixing_model = MixType.LIFO\n"
+             "            else:\n                raise ValueError('Mixing model must be MIXED, 2COMP, FIFO or LIFO or a MixType object')\n",
+         new="            keyword = value.upper()\n            if keyword == 'MIXED' or keyword == 'MIX1':\n                self._mixing_model = MixType.Mixed\n                return\n"
+             "            if keyword == '2COMP' or keyword == 'MIX2':\n                self._mixing_model = MixType.TwoComp\n                return\n"
+             "            if keyword in ('FIFO', 'LIFO'):\n                self._mixing_model = MixType[keyword]\n                return\n"
+             "            raise ValueError('Mixing model must be MIXED, 2COMP, FIFO or LIFO or a MixType object')\n", silent=True),
+    dict(name="p-control-line-dispatch-conditional-expression", file=EIO,
+         old="    if current[0].upper() in ('JUNCTION', 'TANK'):\n        element = wn.get_node(element_name)\n    else:\n        element = wn.get_link(element_name)\n",
+         new="    kind = current[0].upper()\n    element = wn.get_node(element_name) if (kind == 'JUNCTION' or kind == 'TANK') else wn.get_link(element_name)\n", silent=True),
+    dict(name="p-control-line-relation-lookup-table", file=EIO,
+         old="            if current[6] == 'ABOVE':\n                oper = np.greater\n            elif current[6] == 'BELOW':\n                oper = np.less\n"
+             "            else:\n                raise RuntimeError(\"The following control is not recognized: \" + line)\n",
+         new="            relation = current[6]\n            opers = {'ABOVE': np.greater, 'BELOW': np.less}\n            if relation not in opers:\n"
+             "                raise RuntimeError(\"The following control is not recognized: \" + line)\n            oper = opers[relation]\n", silent=True),
+    dict(name="p-from-dict-renamed-token-lists", file=NIO,
+         old='                ta = control["then_actions"][0].split()\n                tstring = " ".join([ta[0], ta[1], ta[4]])\n',
+         new='                action_tokens = control["then_actions"][0].split()\n                tstring = " ".join([action_tokens[0], action_tokens[1], action_tokens[4]])\n',
+         silent=True),
+    dict(name="p-from-dict-hoisted-node-type", file=NIO,
+         old='            name = node["name"]\n            if node["node_type"] == "Junction":\n',
+         new='            name = node["name"]\n            node_type = node["node_type"]\n            if node_type == "Junction":\n', silent=True),
     dict(name="reorder-preserving", file=NIO, old='                p.bulk_coeff = link.setdefault("bulk_coeff")\n                p.tag = link.setdefault("tag")\n',
          new='                p.tag = link.setdefault("tag")\n                p.bulk_coeff = link.setdefault("bulk_coeff")\n', silent=True),
 ]
